@@ -262,5 +262,93 @@ def _cases() -> st.SearchStrategy:
     return st.tuples(_containers(), _prim_fields(0, 4, "f"), _prim_fields(1, 3, "e"), st.integers(0, 3)).flatmap(with_value)
 
 
+# ----------------------------------------------------------------------------------------------------------------------
+# Two levels revised independently: a delimited type D nested in a delimited type O, both with an older and a newer revision
+# (trailing fields appended); any of the four writer combinations is read by any of the four reader combinations.
+
+
+def _two_level_specs(case: typing.Any) -> typing.Dict[typing.Tuple[int, int], typing.Any]:
+    F, E, pre, G = case["fields"], case["extra"], case["pre"], case["outer_extra"]
+    ext_d = layout.inner_max(layout.freeze(["struct", F + E])) + 8 * case["slack"]
+
+    def d(new: int) -> typing.Any:
+        body = ["struct", F + (E if new else [])]
+        return ["delim", body, (ext_d - layout.inner_max(layout.freeze(body))) // 8]
+
+    def o_body(onew: int, dnew: int) -> typing.Any:
+        return ["struct", pre + [["h", d(dnew)]] + (G if onew else [])]
+
+    ext_o = layout.inner_max(layout.freeze(o_body(1, 1))) + 8 * case["outer_slack"]
+    out = {}
+    for onew in (0, 1):
+        for dnew in (0, 1):
+            body = o_body(onew, dnew)
+            o = ["delim", body, (ext_o - layout.inner_max(layout.freeze(body))) // 8]
+            top = o if case["top"] == 0 else ["struct", [["lead", ["uint", 3, "sat"]], ["o", o], ["tail", ["uint", 16, "sat"]]]] if case["top"] == 1 else ["struct", [["arr", ["var", o, 2]], ["tail", ["uint", 8, "sat"]]]]
+            out[(onew, dnew)] = layout.freeze(top)
+    return out
+
+
+def check_two_level(case: typing.Any, ctx: Ctx) -> Info:
+    import pydsdl
+
+    specs = _two_level_specs(case)
+    types = {k: cc.build_type(s) for k, s in specs.items()}
+    e_names = [n for n, _ in case["extra"] if n]
+    g_names = [n for n, _ in case["outer_extra"] if n]
+    # containers of every combination have one layout
+    summaries = {k: (types[k].extent, _bls_summary(types[k].bit_length_set, layout.tree(specs[k]))) for k in specs}
+    for k in specs:
+        require(summaries[k] == summaries[(1, 1)], "container-layout-changed:two-level", summaries[(1, 1)], summaries[k], "combination %r of %s" % (k, layout.type_string(specs[(1, 1)])[:300]))
+
+    def reduce(v: typing.Any, onew: int, dnew: int) -> typing.Any:
+        def one(o: typing.Any) -> typing.Any:
+            o = {k: x for k, x in o.items() if onew or k not in g_names}
+            if "h" in o and not dnew:
+                o = dict(o, h={k: x for k, x in o["h"].items() if k not in e_names})
+            return o
+
+        if case["top"] == 0:
+            return one(v)
+        if case["top"] == 1:
+            return dict(v, o=one(v["o"])) if "o" in v else v
+        return dict(v, arr=[one(x) for x in v.get("arr", [])])
+
+    pair = case["pair"]
+    combos = [(a, b) for a in specs for b in specs]
+    order = [combos[(pair + i * 5) % len(combos)] for i in range(6)] + [((0, 1), (1, 0)), ((1, 0), (0, 1))]
+    checked = 0
+    for wk, rk in order:
+        vw = reduce(case["value"], *wk)
+        data, _ = guarded(pydsdl.serialize, types[wk], codec.to_python(specs[wk], vw), what="serialize:two-level")
+        got = cc.deserialize_outcome(types[rk], specs[rk], data, False, what="deserialize:two-level")
+        exp = cc.reference_outcome(specs[rk], data, False)
+        require(cc.same_outcome(specs[rk], got, exp), "two-level:writer-%d%d-reader-%d%d" % (wk + rk), exp, got,
+                "writer %s reader %s bytes %s" % (layout.type_string(specs[wk])[:250], layout.type_string(specs[rk])[:250], data.hex()))
+        # and the model: what both revisions know keeps its value
+        if got[0] == "ok" and case["top"] == 0:
+            for n, _t in case["pre"]:
+                if n:
+                    require(codec.same(dict((a, b) for a, b in _t_pairs(specs[rk]))[n], got[1].get(n), codec.normalise(specs[wk], vw).get(n)), "two-level:common-leading-field", vw.get(n), got[1].get(n), "field %s" % n)
+        checked += 1
+    return Info(True, ["two-level", "top:%d" % case["top"], "extra:%d" % len(e_names), "outer-extra:%d" % len(g_names)], sample={"newest": layout.type_string(specs[(1, 1)])[:300], "value": case["value"]})
+
+
+def _t_pairs(spec: typing.Any) -> typing.List[typing.Tuple[str, typing.Any]]:
+    body = spec[1] if spec[0] == "delim" else spec
+    return [(n, t) for n, t in body[1] if n]
+
+
+def _two_level_cases() -> st.SearchStrategy:
+    def with_value(args: typing.Any) -> st.SearchStrategy:
+        F, E, pre, G, slack, oslack, top, pair = args
+        case = {"fields": F, "extra": E, "pre": pre, "outer_extra": G, "slack": slack, "outer_slack": oslack, "top": top, "pair": pair}
+        newest = _two_level_specs(case)[(1, 1)]
+        return gt.values(newest).map(lambda v: dict(case, value=v))
+
+    return st.tuples(_prim_fields(0, 3, "f"), _prim_fields(1, 3, "e"), _prim_fields(0, 2, "p"), _prim_fields(1, 3, "g"),
+                     st.integers(0, 2), st.integers(0, 2), st.integers(0, 2), st.integers(0, 15)).flatmap(with_value)
+
+
 def parts(ctx: Ctx) -> typing.List[Part]:
-    return [Part("evolution", _cases(), check_evolution, weight=1)]
+    return [Part("evolution", _cases(), check_evolution, weight=3), Part("two-level", _two_level_cases(), check_two_level, weight=1, cost=2.0)]
